@@ -30,7 +30,7 @@ func TestC02(t *testing.T) {
 	r.Assume("the map model in harness/internal/refmodel is the meaning of the property statement",
 		"the state is observed through List/Info/Get/GetVersion as a superuser")
 	dir := evid.TempDir(t)
-	nHist := r.N(400, 10000)
+	nHist := r.N(3000, 60000)
 	cfg := ops.GenCfg{
 		Names:  []string{"a", "a", "a", "b", "b", "c/d", "", "_internal/x"},
 		Values: [][]byte{[]byte(""), []byte("one"), []byte("two"), []byte("one"), {0, 255, '\n'}},
